@@ -264,11 +264,20 @@ def replay(d):
     roles = phase_roles(prog, ast0)
     rng = random.Random(4)
     stores = [d.get("store") or {}]
-    for _ in range(15):
+    # the model's store first (it may run into a division by zero that is uninterpreted in the symbolic run), then its
+    # one-variable variations, then random stores from a narrow range (equalities between variables must be likely)
+    base = stores[0]
+    for n, r in roles.items():
+        if r == "num" and n in base and not isinstance(base[n], (list, bool)):
+            for v in (-2, -1, 1, 2, 3):
+                if v != base[n]:
+                    stores.append(dict(base, **{n: v}))
+    for k in range(300):
+        lo, hi = ((-1, 2) if k % 2 == 0 else (-4, 5))
         s = {}
         for n, r in roles.items():
-            s[n] = [rng.randint(-3, 3) for _ in range(3)] if r == "arr" else (
-                bool(rng.randint(0, 1)) if r == "bool" else rng.randint(0, 2) if n in pg.loop_bound_vars(prog) else rng.randint(-4, 5))
+            s[n] = [rng.randint(lo, hi) for _ in range(3)] if r == "arr" else (
+                bool(rng.randint(0, 1)) if r == "bool" else rng.randint(0, 2) if n in pg.loop_bound_vars(prog) else rng.randint(lo, hi))
         stores.append(s)
     for conc in stores:
         funcs = backends.concrete_user_functions(d.get("ufs") or {})
